@@ -5,14 +5,14 @@ committed baseline (spec/baseline.json) pins the tags that must exist."""
 # unit -> default tag for an untagged precondition failure whose callee is outside the unit
 # (vstd's `unwrap`, indexing, ...): a panic in that code is what the tag's property forbids.
 NOPANIC_TAG = {
-    "UTIL": "C05.corrupt",
+    "UTIL": ["C05.corrupt", "C04.nopanic"],
     "ACT": "C04.nopanic",
     "RELAY": "C04.nopanic",
     "BLD": "C04.nopanic",
     "WCH": "C16.total",
     "FS": "C15.total",
     "DOM": "C19.total",
-    "INC": "C05.corrupt",
+    "INC": ["C05.corrupt", "C04.nopanic"],  # incremental::run runs inside the build actor's task: a panic there is a lost wake-up
     "CFG": "C14.nopanic",
     "CLN": "C12.nopanic",
 }
@@ -47,7 +47,7 @@ FSA = ["A-walkdir", "A-str", "A-adapters"]
 ACTORS = ["A-hash", "A-clone", "A-std", "A-chan", "A-proc", "A-bridge", "R1", "R16"]
 PROPS = {
     "C01": {"units": ["ACT", "RELAY", "CFG", "BLD"], "level": "proof", "assume": ACTORS},
-    "C04": {"units": ["ACT", "RELAY", "CLN"], "level": "proof", "assume": ACTORS + ["A-exec"],
+    "C04": {"units": ["ACT", "RELAY", "CLN", "INC"], "level": "proof", "assume": ACTORS + ["A-exec"],
             "not_covered": ["not covered: liveness itself (executor fairness, that scripts terminate, any time bound) - only the safety skeleton of termination is proved"]},
     "C02": {"units": ["INC", "UTIL", "FS", "CFG"], "level": "proof", "assume": INCA + FSA,
             "not_covered": ["not covered: hash collisions (the record holds a hash of the content), the directory walk itself (A-fs), timestamp granularity"]},
